@@ -453,8 +453,22 @@ pub fn run_case(tape: &mut Tape, _tier: Tier, _p: &CaseParams) -> CaseOutcome {
     );
     return out;
   }
-  // idempotence
-  if let Some((path, a, b)) = first_diff(incremental, again) {
+  // idempotence. What the unconditional, empty npm resolution request of a
+  // build with nothing new answers is the embedder's business (a failing
+  // dependency graph resolution may or may not be reported again), so
+  // `npm_dep_graph_result` is left out when the simulated resolver fails.
+  let strip_npm = |v: &Value| {
+    let mut v = v.clone();
+    if world.npm.dep_graph_fails {
+      if let Some(o) = v.as_object_mut() {
+        o.remove("npm_dep_graph_result");
+      }
+    }
+    v
+  };
+  if let Some((path, a, b)) =
+    first_diff(&strip_npm(incremental), &strip_npm(again))
+  {
     out.violation(
       "C19",
       "rebuild-with-known-roots-changes-nothing",
